@@ -44,12 +44,26 @@ fn rand_values(cd: &CredDef, rng: &mut Rng, with_commitment: bool) -> Result<(Cr
 }
 
 pub fn honest_session(pool: &Pool, cd_name: &str, rng: &mut Rng, with_commitment: bool) -> Result<Session, String> {
+    honest_session_n(pool, cd_name, rng, with_commitment, false)
+}
+
+/// `long_nonces`: both nonces are application-chosen long ones (128 / 256 bits)
+pub fn honest_session_n(pool: &Pool, cd_name: &str, rng: &mut Rng, with_commitment: bool, long_nonces: bool) -> Result<Session, String> {
     let e = |x: Error| x.to_string();
     let cd = pool.get(cd_name);
     let (known, hidden) = rand_values(cd, rng, with_commitment)?;
-    let nonce = new_nonce().map_err(e)?;
+    // nonces are application data: mostly the library's 80-bit ones, sometimes longer or shorter (every byte must be bound)
+    let pick_nonce = |rng: &mut Rng| -> Result<Nonce, String> {
+        match if long_nonces { rng.below(2) * 5 } else { rng.below(5) } {
+            0 => bn::BigNumber::from_hex(&rng.hex_bits(128)).map_err(|x| x.to_string()),
+            5 => bn::BigNumber::from_hex(&rng.hex_bits(256)).map_err(|x| x.to_string()),
+            1 => { let bits = if rng.chance(1, 2) { 256 } else { 24 }; bn::BigNumber::from_hex(&rng.hex_bits(bits)).map_err(|x| x.to_string()) }
+            _ => new_nonce().map_err(|x| x.to_string()),
+        }
+    };
+    let nonce = pick_nonce(rng)?;
     let (blinded, factors, bproof) = Prover::blind_credential_secrets(&cd.pk, &cd.kcp, &hidden, &nonce).map_err(e)?;
-    let inonce = new_nonce().map_err(e)?;
+    let inonce = pick_nonce(rng)?;
     let prover_id = format!("prover-{}", rng.hex_bits(40));
     let (sig_raw, sproof) = Issuer::sign_credential(&prover_id, &blinded, &bproof, &nonce, &inonce, &known, &cd.pk, &cd.sk).map_err(e)?;
     // the issuer-known value wins over the holder's commitment entry for the same attribute
@@ -94,7 +108,8 @@ fn gen_issue(thorough: bool, rng: &mut Rng) -> Result<(), String> {
         let name = rng.pick(&names).clone();
         let cd = pool.get(&name);
         let wc = rng.chance(1, 4);
-        let s = honest_session(&pool, &name, rng, wc)?;
+        // the first session (one of those whose messages are altered field by field) has long nonces
+        let s = honest_session_n(&pool, &name, rng, wc, k == 0)?;
         let pkj = jv(&cd.pk)["p_key"].clone();
         // ---- C05/C07: the issuer's check, as the model sees it
         emit(&json!({"id": format!("issue/{}/blinded", k), "op": "blinded_check",
@@ -594,6 +609,8 @@ fn gen_keyforge(thorough: bool, rng: &mut Rng) -> Result<(), String> {
                 ("covered_generator_replaced", vec![], Some((first.clone(), "n-1")), false),
                 // the key has no generator called master_secret, the proof carries an entry under that name
                 ("key_without_master_secret_proof_names_it", vec![], None, false),
+                // S = 0 with arbitrary Z = 2 and every R = 3: all recomputed commitments vanish, the "proof" is computable by anybody
+                ("s_zero_forgery", vec![], None, false),
             ];
             for (variant, uncovered, ovr, accept) in variants {
                 if uncovered.len() == 2 && uncovered[0] == uncovered[1] { continue; }
@@ -606,12 +623,15 @@ fn gen_keyforge(thorough: bool, rng: &mut Rng) -> Result<(), String> {
                     if let Some((on, kind)) = &ovr {
                         if on == a { o["r_override"] = json!(dec_add(&n_dec, if *kind == "n-1" { -1 } else { -4 })); }
                     }
+                    if variant == "s_zero_forgery" { o["r_override"] = json!("3"); }
                     o
                 }).collect();
-                emit(&json!({"id": format!("keyforge/{}/{}", k, variant), "op": "key_prove",
-                    "in": {"backend": backend_str(), "n": pkj["n"], "s": pkj["s"], "xz": dec_of_hex(&rng.hex_bits(2000)), "xz_tilde": dec_of_hex(&rng.hex_bits(2200)),
+                let mut inj = json!({"backend": backend_str(), "n": pkj["n"], "s": pkj["s"], "xz": dec_of_hex(&rng.hex_bits(2000)), "xz_tilde": dec_of_hex(&rng.hex_bits(2200)),
                            "xrctxt": dec_of_hex(&rng.hex_bits(2000)), "attrs": attrs,
-                           "extra_proof_entries": if variant == "key_without_master_secret_proof_names_it" { json!([["master_secret", dec_of_hex(&rng.hex_bits(2300))]]) } else { json!([]) }},
+                           "extra_proof_entries": if variant == "key_without_master_secret_proof_names_it" { json!([["master_secret", dec_of_hex(&rng.hex_bits(2300))]]) } else { json!([]) }});
+                if variant == "s_zero_forgery" { inj["s"] = json!("0"); inj["z_override"] = json!("2"); }
+                emit(&json!({"id": format!("keyforge/{}/{}", k, variant), "op": "key_prove",
+                    "in": inj,
                     "impl": {"exec": {"op": "key_proof_verdict", "in": {"def": name}}, "expect_accept": accept, "variant": variant},
                     "class": {"kind": "reference-key-issuer", "variant": variant, "def": name}}));
             }
